@@ -230,6 +230,16 @@ def run(ctx):
         if ctx.check(len(stores) == 1, P, "one-join", "one place rewrites config.source_dir (%d)" % len(stores), cn.where()):
             sb, sst = stores[0]
             chain, root = call_chain(cn, sst["rv"]["op"]) if sst["rv"]["k"] == "use" else ([], None)
+            if not any(c.matches(r"^std::path::Path::to_str$|Path::to_string_lossy$|Path::display$") for c in chain) and sst["rv"]["k"] == "use":
+                # the string travelled through Option / Result wrappers (helper returns, desugared combinators):
+                # start from the calls that can produce the stored value
+                from ..common import value_sites
+                for (_b2, leaf) in value_sites(cn, sst["rv"]["op"]):
+                    if not isinstance(leaf, dict) and leaf.args:
+                        c2, r2 = call_chain(cn, leaf.args[0])
+                        chain = [leaf] + c2
+                        if any(c.matches(r"^std::path::Path::to_str$|Path::to_string_lossy$|Path::display$") for c in chain):
+                            break
             # walk back to the path object: to_string <- to_str <- <path>
             pathop = None
             for c in chain:
